@@ -10,6 +10,7 @@ import (
 	"os"
 	"os/exec"
 	"path/filepath"
+	"reflect"
 	"runtime"
 	"strconv"
 	"strings"
@@ -44,7 +45,7 @@ type concEvent struct {
 }
 
 const sharedScript = `function more(l, k) { return len(l) > k; } n = n + 1; if ( Name ~= /^a/ ) { return true; } return more(Tags, 1);`
-const ownScript = `function fib(k) { if ( k < 2 ) { return k; } return fib(k - 1) + fib(k - 2); } c = c + 1; h = {"k": 1, "n": Name, 1.5: 2}; return fib(7) == 13 && h["k"] == 1 && h[1.5] == 2 && h["n"] == Name && ( Name ~= /b+/ || match(Name, Pattern) );`
+const ownScript = `function fib(k) { if ( k < 2 ) { return k; } return fib(k - 1) + fib(k - 2); } c = c + 1; h = {"k": 1, "n": Name, 1.5: 2}; return fib(7) == 13 && h["k"] == 1 && h[1.5] == 2 && h["n"] == Name && year(Stamp) == 2023 && ( Name ~= /b+/ || match(Name, Pattern) );`
 
 // an evaluator with a deadline: the run on a spinning object is cut off, the others go through
 const timedScript = `while ( Spin ) { } return true;`
@@ -191,7 +192,7 @@ func recordConcurrent(c *Check) ([]concEvent, bool) {
 		go func(gi int, e *evalfilter.Eval) {
 			defer wg.Done()
 			<-start
-			_, _ = e.Run(map[string]interface{}{"Name": "abb", "Pattern": fmt.Sprintf("x%d+y%d", gi, time.Now().UnixNano()%1000)})
+			_, _ = e.Run(map[string]interface{}{"Name": "abb", "Stamp": int64(1700000000), "Pattern": fmt.Sprintf("x%d+y%d", gi, time.Now().UnixNano()%1000)})
 		}(gi, e)
 	}
 	// the deadline of the timed evaluator: its context is cancelled every 20 ms and re-armed a moment later, so
@@ -282,7 +283,12 @@ func c11Worker(rounds int) int {
 				}
 				ok := true
 				for r := 0; r < R; r++ {
-					v, err := e.Run(map[string]interface{}{"Name": "abb", "Pattern": fmt.Sprintf("r%dm%dx%d+", round, mI, r)})
+					// a struct of a type nobody has seen before (the goroutines of a round share it), or a map
+					var obj interface{} = map[string]interface{}{"Name": "abb", "Stamp": int64(1700000000), "Pattern": fmt.Sprintf("r%dm%dx%d+", round, mI, r)}
+					if r%2 == 0 {
+						obj = freshRecord(fmt.Sprintf("X%dr%d", round, r), "abb", fmt.Sprintf("r%dm%dx%d+", round, mI, r))
+					}
+					v, err := e.Run(obj)
 					ok = ok && err == nil && v
 				}
 				cv := e.GetVariable("c")
@@ -372,7 +378,7 @@ func buildRaceWorker() (string, error) {
 }
 
 func checkC11(c *Check) {
-	c.rule = "one real concurrent execution (3 goroutines x 2 Run calls on a shared evaluator with objects incl. nil, a persistent counter, a regexp and a user-defined function; 2 goroutines with evaluators of their own running a recursive function, building and reading a hash with string and float keys and matching never-seen patterns; 2 goroutines sharing an evaluator with a deadline, half of whose runs spin until they are cut off) is recorded through the lock, cache and step hooks as per-goroutine event sequences (evaluator lock/unlock, cache lock/unlock/read/write, reads and writes of the counter, accesses to the machine state); TLC (Trace_Conc) keeps program order and lock semantics and explores ALL interleavings consistent with them, checking NoDataRace (two goroutines about to touch one location, one writing, no common lock), NoLostUpdate, MutualExclusion, Balanced, NoDeadlock and LockDiscipline (every access happens under the lock of its owner, locks are released in reverse order); the same module (EFConc) is first explored as a design (MC_Conc: G goroutines x R runs on a shared evaluator, M evaluators of their own, all interleavings; with the evaluator lock or the cache lock removed TLC must find the race, the lost update and the broken discipline); the same scenario, larger (8+4 goroutines x 5 runs, repeated), runs in a worker built with the Go race detector: a race report, a lost update or a wrong verdict is a violation; distinct = recorded events / worker rounds"
+	c.rule = "one real concurrent execution (3 goroutines x 2 Run calls on a shared evaluator with objects incl. nil, a persistent counter, a regexp and a user-defined function; 2 goroutines with evaluators of their own running a recursive function, building and reading a hash with string and float keys, decomposing a time and matching never-seen patterns; in the race-detector worker half of their objects are structs of types nobody has seen before; 2 goroutines sharing an evaluator with a deadline, half of whose runs spin until they are cut off) is recorded through the lock, cache and step hooks as per-goroutine event sequences (evaluator lock/unlock, cache lock/unlock/read/write, reads and writes of the counter, accesses to the machine state); TLC (Trace_Conc) keeps program order and lock semantics and explores ALL interleavings consistent with them, checking NoDataRace (two goroutines about to touch one location, one writing, no common lock), NoLostUpdate, MutualExclusion, Balanced, NoDeadlock and LockDiscipline (every access happens under the lock of its owner, locks are released in reverse order); the same module (EFConc) is first explored as a design (MC_Conc: G goroutines x R runs on a shared evaluator, M evaluators of their own, all interleavings; with the evaluator lock or the cache lock removed TLC must find the race, the lost update and the broken discipline); the same scenario, larger (8+4 goroutines x 5 runs, repeated), runs in a worker built with the Go race detector: a race report, a lost update or a wrong verdict is a violation; distinct = recorded events / worker rounds"
 	c.assumptions = []string{"the hooks sit at the accesses to shared state (the cache hooks are inside compileRegexp, the lock hooks next to the evaluator mutex, the step hook sees every instruction)", "Go's race detector observes the schedules that occur; TLC's exhaustiveness is over the recorded events"}
 	events, ok := recordConcurrent(c)
 	if !ok {
@@ -570,6 +576,20 @@ func independentGroups(events []concEvent) [][]concEvent {
 		out = append(out, byRoot[r])
 	}
 	return out
+}
+
+// freshRecord builds a struct value of a type made for the occasion: fields Name, Pattern, Stamp and one more
+// whose name makes the type a new one (reflect.StructOf returns the same type for the same fields)
+func freshRecord(extra, name, pattern string) interface{} {
+	t := reflect.StructOf([]reflect.StructField{
+		{Name: "Name", Type: reflect.TypeOf("")}, {Name: "Pattern", Type: reflect.TypeOf("")}, {Name: "Stamp", Type: reflect.TypeOf(int64(0))},
+		{Name: extra, Type: reflect.TypeOf(0)},
+	})
+	v := reflect.New(t).Elem()
+	v.Field(0).SetString(name)
+	v.Field(1).SetString(pattern)
+	v.Field(2).SetInt(1700000000)
+	return v.Interface()
 }
 
 // pulse cancels the context every 20 ms and re-arms it a millisecond later, until stop is closed
